@@ -101,6 +101,9 @@ BOUNDARY = [
     (['- 1. w', '  2.', '', '  w'], '<ul>\n<li>\n<ol>\n<li>w</li>\n<li></li>\n</ol>\n<p>w</p>\n</li>\n</ul>'),
     (['- 1. w', '  2.', '', '- x'], '<ul>\n<li>\n<ol>\n<li>w</li>\n<li></li>\n</ol>\n</li>\n<li>\n<p>x</p>\n</li>\n</ul>'),
     (['- a', '-', '', '* * *', '', '+', '', '- - -'], '<ul>\n<li>a</li>\n<li></li>\n</ul>\n<hr />\n<ul>\n<li></li>\n</ul>\n<hr />'),
+    # 5.2 + GFM tables: a line with a list marker starts an item, also when the item begins with a table (only a thematic break wins)
+    (['- a', '- | x |', '  |---|', '- - -', '- b'],
+     '<ul>\n<li>a</li>\n<li>\n<table>\n<thead>\n<tr>\n<th align="left">x</th>\n</tr>\n</thead>\n<tbody>\n</tbody>\n</table>\n</li>\n</ul>\n<hr />\n<ul>\n<li>b</li>\n</ul>'),
 ]
 LEAVES = LEAVES + ['boundary:%d' % i for i in range(len(BOUNDARY))]
 
